@@ -24,7 +24,7 @@ package pq
 //@   writes G$reported
 //@
 //@ func NewQueue
-//@   ensures fresh(result) && len(result.heap.a) == 0
+//@   ensures fresh(result) && result.heap.a == nil
 //@   ensures result.heap.less == less && result.heap.setIndex == setIndex
 //@   ensures less != nil ==> wfHeap(result.heap)
 //@   modifies nothing
@@ -63,6 +63,7 @@ package pq
 //@   ensures h.setIndex == nil ==> reported == old(reported)
 //@   ensures h.less == old(h.less) && h.setIndex == old(h.setIndex)
 //@   ensures distinct(*h) && idxOK(*h)
+//@   ensures ref(h.a) == old(ref(h.a)) || fresh(h.a)
 //@   modifies h.a, elems(h.a)
 //@   props C20
 //@
@@ -75,6 +76,7 @@ package pq
 //@   ensures reported == old(reported)
 //@   ensures h.less == old(h.less) && h.setIndex == old(h.setIndex)
 //@   ensures distinct(*h) && idxOK(*h)
+//@   ensures ref(h.a) == old(ref(h.a))
 //@   modifies h.a
 //@   props C20
 //@
@@ -106,7 +108,9 @@ package pq
 //@   ensures wfHeap(*hpOf(h)) && member(*hpOf(h), x)
 //@   ensures forall y any :: old(member(*hpOf(h), y)) ==> member(*hpOf(h), y)
 //@   ensures forall y any :: member(*hpOf(h), y) ==> (y == x || old(member(*hpOf(h), y)))
+//@   ensures forall k int :: 0 <= k && k < len(hpOf(h).a) ==> (hpOf(h).a[k] == x || (exists j int :: 0 <= j && j < old(len(hpOf(h).a)) && hpOf(h).a[k] == old(hpOf(h).a[j])))
 //@   ensures hpOf(h).less == old(hpOf(h).less) && hpOf(h).setIndex == old(hpOf(h).setIndex)
+//@   ensures ref(hpOf(h).a) == old(ref(hpOf(h).a)) || fresh(hpOf(h).a)
 //@   modifies hpOf(h).a, elems(hpOf(h).a)
 //@   writes G$reported
 //@
@@ -117,8 +121,10 @@ package pq
 //@   ensures wfHeap(*hpOf(h)) && old(member(*hpOf(h), result)) && (hpOf(h).setIndex != nil ==> !member(*hpOf(h), result))
 //@   ensures forall y any :: old(member(*hpOf(h), y)) && y != result ==> member(*hpOf(h), y)
 //@   ensures forall y any :: member(*hpOf(h), y) ==> old(member(*hpOf(h), y))
+//@   ensures (forall k int :: 0 <= k && k < len(hpOf(h).a) ==> (exists j int :: 0 <= j && j < old(len(hpOf(h).a)) && hpOf(h).a[k] == old(hpOf(h).a[j]))) && (exists j int :: 0 <= j && j < old(len(hpOf(h).a)) && result == old(hpOf(h).a[j]))
 //@   ensures forall y any :: old(member(*hpOf(h), y)) ==> !lessOf(hpOf(h).less, y, result)
 //@   ensures hpOf(h).less == old(hpOf(h).less) && hpOf(h).setIndex == old(hpOf(h).setIndex)
+//@   ensures ref(hpOf(h).a) == old(ref(hpOf(h).a))
 //@   modifies hpOf(h).a, elems(hpOf(h).a)
 //@   writes G$reported
 //@
@@ -152,6 +158,9 @@ package pq
 //@   ensures wfHeap(pq.heap) && member(pq.heap, x)
 //@   ensures forall y any :: old(member(pq.heap, y)) ==> member(pq.heap, y)
 //@   ensures forall y any :: member(pq.heap, y) ==> (y == x || old(member(pq.heap, y)))
+//@   ensures forall k int :: 0 <= k && k < len(pq.heap.a) ==> (pq.heap.a[k] == x || (exists j int :: 0 <= j && j < old(len(pq.heap.a)) && pq.heap.a[k] == old(pq.heap.a[j])))
+//@   ensures pq.heap.less == old(pq.heap.less) && pq.heap.setIndex == old(pq.heap.setIndex)
+//@   ensures ref(pq.heap.a) == old(ref(pq.heap.a)) || fresh(pq.heap.a)
 //@   modifies pq.heap.a, elems(pq.heap.a)
 //@   props C20
 //@
@@ -161,7 +170,10 @@ package pq
 //@   ensures wfHeap(pq.heap) && old(member(pq.heap, result)) && (pq.heap.setIndex != nil ==> !member(pq.heap, result))
 //@   ensures forall y any :: old(member(pq.heap, y)) && y != result ==> member(pq.heap, y)
 //@   ensures forall y any :: member(pq.heap, y) ==> old(member(pq.heap, y))
+//@   ensures (forall k int :: 0 <= k && k < len(pq.heap.a) ==> (exists j int :: 0 <= j && j < old(len(pq.heap.a)) && pq.heap.a[k] == old(pq.heap.a[j]))) && (exists j int :: 0 <= j && j < old(len(pq.heap.a)) && result == old(pq.heap.a[j]))
+//@   ensures pq.heap.less == old(pq.heap.less) && pq.heap.setIndex == old(pq.heap.setIndex)
 //@   ensures forall y any :: old(member(pq.heap, y)) ==> !lessOf(pq.heap.less, y, result)
+//@   ensures ref(pq.heap.a) == old(ref(pq.heap.a))
 //@   modifies pq.heap.a, elems(pq.heap.a)
 //@   props C20
 //@
